@@ -62,7 +62,9 @@ EXHAUSTIVE_SCOPE = (
 DELIMITERS = [",", ";", ":", "|", "\t", " ", "a", "0", '"', "'", "\\", "~", "#", "€", "\r", "\n"]
 QUOTES = list("!\"#$%&'*+-/:;=?\\^_`~")
 ESCAPES = ['"', "\\"]
-QUOTINGS = ["minimal", "all"]
+# the two documented modes, and the other modes of the csv module: the loader refuses them today; should it ever accept
+# one, every table has to round-trip under it like under the documented ones
+QUOTINGS = ["minimal", "all", "none", "nonnumeric"]
 LINES = ["LF", "CR", "CRLF", "Any"]
 SYMBOLIC = {"\r": "Cr", "\n": "LF", "\t": "Tab"}
 
